@@ -38,7 +38,8 @@ def main():
         patch, demo, meta = src / f"patch{k}.diff", src / f"demo{k}.py", src / f"meta{k}.json"
     else:
         patch, demo, meta = src / "patch.diff", src / "demo.py", src / "meta.json"
-    dst = OUT / f"{pid}-{k}"
+    kname = sys.argv[sys.argv.index("--as") + 1] if "--as" in sys.argv else k
+    dst = OUT / f"{pid}-{kname}"
     dst.mkdir(parents=True, exist_ok=True)
     if patch.resolve() != (dst / "patch.diff").resolve():
         shutil.copy(patch, dst / "patch.diff")
@@ -95,9 +96,9 @@ def main():
     m_out = {"property": pid, "summary": m.get("summary"), "needs_to_manifest": m.get("needs_to_manifest"),
              "files": m.get("files"), "author": "independent sub-agent (saw only the property text and a scratch worktree)",
              "confirmed": res, "tier": tier,
-             "how_run": f"tools/seedtest.py <dir> {pid} {k} (scratch worktree of /repo HEAD + PYTHONPATH/CKT_REPO; /repo untouched)"}
+             "how_run": f"tools/seedtest.py <dir> {pid} {kname} (scratch worktree of /repo HEAD + PYTHONPATH/CKT_REPO; /repo untouched)"}
     (dst / "meta.json").write_text(json.dumps(m_out, indent=1))
-    print(json.dumps({"id": f"{pid}-{k}", **{kk: res.get(kk) for kk in ("suite_ok", "demo_clean", "demo_changed", "detected", "detected_with_input")},
+    print(json.dumps({"id": f"{pid}-{kname}", **{kk: res.get(kk) for kk in ("suite_ok", "demo_clean", "demo_changed", "detected", "detected_with_input")},
                       "lines": res["checks"][pid]["lines"][:3]}, indent=1))
 
 
